@@ -246,6 +246,42 @@ class PairSeq:
         return Tup([self.a.at(j), self.b.at(j)])
 
 
+class LazySeq:
+    """a 1-D numpy array given by a function of the position (e.g. the row sums of a matrix expression); never stored into."""
+
+    def __init__(self, n, at_fn, elem="int", dtype="int"):
+        self.n, self.at_fn, self.elem, self.dtype, self.kind = n, at_fn, elem, dtype, "nd"
+        self.delta, self.start = 0, iv(0)
+
+    def at(self, j):
+        return self.at_fn(j)
+
+    def trigger(self, p):
+        return self.at_fn(p)
+
+
+class MatLazy:
+    """an element-wise expression over a matrix (accessor + 1, (accessor + 1).astype(bool)): at(r, c) is a function of the base entry."""
+
+    def __init__(self, rows, cols, at_fn, dtype="int"):
+        self.rows, self.cols, self.at_fn, self.dtype = rows, cols, at_fn, dtype
+
+    def at(self, r, c):
+        return self.at_fn(r, c)
+
+
+class DictV:
+    """a Python dict  int -> list of ints : key set (Array Int Bool), value arrays and lengths per key, and the insertion order (a Seq of keys)."""
+
+    def __init__(self, has, varr, vlen, order):
+        self.has, self.varr, self.vlen, self.order = has, varr, vlen, order
+
+    def value(self, k):
+        s = Seq("list", "int", self.varr[k], self.vlen[k])
+        s.maxlen = 4
+        return s
+
+
 class MaybeFloat:
     """an integer-valued numpy scalar whose dtype is float64 when `when` holds (sum / % over array([]) without a dtype)."""
 
